@@ -11,7 +11,7 @@ for d in seeded/*/; do
   if ! git -C /repo apply --check $d/patch.diff 2>/dev/null; then echo "| $id | $prop | patch no longer applies | |" >> $out; continue; fi
   git -C /repo apply $d/patch.diff
   res=$(bin/check $prop quick 2>&1); rc=$?
-  git -C /repo checkout -- .
+  git -C /repo checkout -- .; git -C /verif checkout -- evidence 2>/dev/null
   v=$(echo "$res" | grep -c '^VIOLATION'); nf=$(echo "$res" | grep -c 'no-failing-input-found')
   if [ $rc -ne 0 ] && [ $v -gt 0 ]; then
     if [ $nf -gt 0 ]; then o="caught (no-failing-input-found)"; else o="caught with failing input"; fi
